@@ -183,6 +183,24 @@ def schedules_for(rng, tier):
         steps[k]["ack"] = False
         scheds.append(dict(settings="S3", init=dict(e=True), prefix=PREFIX, buffer=16384, session=8192, tx=1024, kind="inflight",
                            known="minimq-inflight-overflow", steps=steps))
+    # prefixes at the limit of the topic buffer: <prefix>/settings<longest path> of exactly MAX_TOPIC_LENGTH bytes must work
+    # like any other prefix; one byte more and the constructor must refuse (its assert), or the dump could not build its topic
+    for j in range(2 if tier == "quick" else 8):
+        r = random.Random(rng.getrandbits(64))
+        sname = r.choice(["S1", "S2", "S3", "S4"])
+        fit = 128 - len("/settings") - max(len(p.encode()) for p in SETTINGS[sname]["leaves"])
+        over = j % 2 == 1
+        s = gen_schedule(r, "normal")
+        s.update(settings=sname, prefix="p" * (fit + (1 if over else 0)), kind="prefix-over" if over else "prefix-fit")
+        for st in s["steps"]:
+            for key in ("msg", "msg2"):
+                if key in st:
+                    m = st[key]
+                    if m["topic"].startswith(PREFIX):
+                        m["topic"] = s["prefix"] + m["topic"][len(PREFIX):]
+                    if m.get("resp") == PREFIX + "/response":
+                        m["resp"] = "r/resp"
+        scheds.append(s)
     return scheds
 
 
